@@ -265,7 +265,9 @@ fn compile_inputs(tx: &tir::Tx) -> Result<Vec<primitives::TransactionInput>, Err
     let refs = tx
         .inputs
         .iter()
-        .flat_map(|x| coercion::expr_into_utxo_refs(&x.utxos))
+        .map(|x| coercion::expr_into_utxo_refs(&x.utxos))
+        .collect::<Result<Vec<_>, _>>()?
+        .into_iter()
         .flatten()
         .map(|x| primitives::TransactionInput {
             transaction_id: x.txid.as_slice().into(),
@@ -436,7 +438,9 @@ fn compile_reference_inputs(tx: &tir::Tx) -> Result<Vec<primitives::TransactionI
     let refs = tx
         .references
         .iter()
-        .flat_map(coercion::expr_into_utxo_refs)
+        .map(coercion::expr_into_utxo_refs)
+        .collect::<Result<Vec<_>, _>>()?
+        .into_iter()
         .flatten()
         .map(|x| primitives::TransactionInput {
             transaction_id: x.txid.as_slice().into(),
@@ -452,7 +456,9 @@ fn compile_collateral(tx: &tir::Tx) -> Result<Vec<TransactionInput>, Error> {
         .collateral
         .iter()
         .filter_map(|collateral| collateral.utxos.as_option())
-        .flat_map(coercion::expr_into_utxo_refs)
+        .map(coercion::expr_into_utxo_refs)
+        .collect::<Result<Vec<_>, _>>()?
+        .into_iter()
         .flatten()
         .map(|x| primitives::TransactionInput {
             transaction_id: x.txid.as_slice().into(),
